@@ -82,8 +82,9 @@ def implementors(flavour):
     return {k: sorted(v) for k, v in res.items()}, None
 
 
-# head -> how the model covers it: a substring that must occur in the Rust name of some catalogue type,
-# or ('elsewhere', reason)
+# head -> how the model covers it: the outermost Rust name of some SUBTERM of a catalogue type (path stripped; a
+# pattern ending in '<' is a generic head, anything else must be the whole name), a structural test for the
+# types that have no name (slice, array, reference, unit), or ('elsewhere', reason)
 def _prims():
     d = {}
     for p in ('u8', 'u16', 'u32', 'u64', 'u128', 'usize', 'i8', 'i16', 'i32', 'i64', 'i128', 'isize', 'f32', 'f64', 'bool'):
@@ -95,7 +96,7 @@ def _prims():
 
 COVER = dict(_prims())
 COVER.update({
-    'str': 'str', 'String': 'String', 'slice': '[', 'array': '; ', 'ref': '&', 'Option/1': 'Option<', 'Result/2': 'Result<',
+    'str': 'str', 'String': 'String', 'slice': ('term', 'slice'), 'array': ('term', 'array'), 'ref': ('term', 'ref'), 'Option/1': 'Option<', 'Result/2': 'Result<',
     'Vec/1': 'Vec<', 'VecDeque/1': 'VecDeque<', 'LinkedList/1': 'LinkedList<', 'BTreeMap/2': 'BTreeMap<', 'BTreeSet/1': 'BTreeSet<',
     'HashMap/3': 'HashMap<', 'HashSet/2': 'HashSet<', 'IndexMap/3': 'IndexMap<', 'IndexSet/2': 'IndexSet<',
     'Box/1': 'Box<', 'Rc/1': 'Rc<', 'Arc/1': 'Arc<', 'Cow/1': 'Cow<', 'Cell/1': 'Cell<', 'RefCell/1': 'RefCell<', 'PhantomData/1': 'PhantomData<',
@@ -103,7 +104,7 @@ COVER.update({
     'RangeToInclusive/1': 'ops::RangeToInclusive<', 'RangeFull': 'RangeFull',
     'IpAddr': 'IpAddr', 'Ipv4Addr': 'Ipv4Addr', 'Ipv6Addr': 'Ipv6Addr', 'SocketAddr': 'SocketAddr', 'SocketAddrV4': 'SocketAddrV4', 'SocketAddrV6': 'SocketAddrV6',
     'AsciiChar': 'AsciiChar', 'AsciiStr': 'AsciiStr', 'AsciiString': 'AsciiString', 'Bytes': 'bytes::Bytes', 'BytesMut': 'BytesMut', 'ObjectId': 'ObjectId',
-    'tuple/0': '()',
+    'tuple/0': ('term', 'unit'),
     'BorshSchemaContainer': ('elsewhere', 'Coq ty_container (WithSchema.v); codec and own schema exercised by C17 stage 4 and C08'),
     'Definition': ('elsewhere', 'part of ty_container'),
     'Fields': ('elsewhere', 'part of ty_container'),
@@ -116,12 +117,32 @@ for _n in range(1, 21):
 def stage(traits, catalogue_types, rust):
     """-> (stats, disagreements).  catalogue_types: [(tid, t)], rust: t -> Rust name."""
     import tyuniv
-    names = [rust(t) for _, t in catalogue_types]
+    seen = set()       # outermost names of all subterms, path stripped: 'Vec<', 'u8', 'SocketAddrV6', ...
+    shapes = set()
     arities = set()
     for _, t in catalogue_types:
         for s in tyuniv.subterms(t):
             if s[0] == 'prod' and s[1] == 'tuple':
                 arities.add(len(s[2]))
+            if s[0] == 'seq' and s[1] == 'slice':
+                shapes.add('slice')
+            elif s[0] == 'array':
+                shapes.add('array')
+            elif s[0] == 'wrap' and s[1] == 'ref':
+                shapes.add('ref')
+            elif s == ('unit', 'unit'):
+                shapes.add('unit')
+            try:
+                n = rust(s)
+            except Exception:
+                continue
+            m = re.match(r"^(?:\w+::)*(\w+)(<?)", n)
+            if m:
+                seen.add(m.group(1) + m.group(2))
+
+    def exercised(pat):
+        m = re.match(r"^(?:\w+::)*(\w+<?)$", pat)
+        return bool(m) and m.group(1) in seen
     stats = {'source_cover': {}}
     dis = []
     for flavour in FEATURES:
@@ -146,7 +167,10 @@ def stage(traits, catalogue_types, rust):
                 elif isinstance(c, tuple) and c[0] == 'tuple':
                     if c[1] not in arities:
                         unexercised.append(h)
-                elif not any(c in n for n in names):
+                elif isinstance(c, tuple) and c[0] == 'term':
+                    if c[1] not in shapes:
+                        unexercised.append(h)
+                elif not exercised(c):
                     unexercised.append(h)
             rec[tr] = {'implementors': len(heads), 'covered_elsewhere': elsewhere}
             for h in unknown:
